@@ -53,8 +53,10 @@ class Ctx:
         self.findings = load_findings()
 
     # ---------------------------------------------------------------- library build
-    def build_lib(self, tag='default', cflags=(), cc='gcc', exclude=()):
-        """Compile REPO/src/*.c (current working tree) into tmp/<tag>/, return dict."""
+    def build_lib(self, tag='default', cflags=(), cc='gcc', exclude=(), nosan=('GC',)):
+        """Compile REPO/src/*.c (current working tree) into tmp/<tag>/, return dict.
+        Files named in `nosan` are compiled without -fsanitize=... flags (GC.c scans the stack
+        conservatively on purpose, which AddressSanitizer reports as a stack overflow)."""
         if tag in self.libs:
             return self.libs[tag]
         d = os.path.join(self.tmp, 'lib_' + tag)
@@ -64,7 +66,8 @@ class Ctx:
         procs = []
         for s in srcs:
             o = os.path.join(d, os.path.basename(s)[:-2] + '.o')
-            procs.append((s, o, subprocess.Popen([cc] + flags + ['-c', s, '-o', o],
+            fl = [f for f in flags if not f.startswith('-fsanitize')] if os.path.basename(s)[:-2] in nosan else flags
+            procs.append((s, o, subprocess.Popen([cc] + fl + ['-c', s, '-o', o],
                                                  stdout=subprocess.PIPE, stderr=subprocess.STDOUT)))
             while sum(1 for _, _, p in procs if p.poll() is None) >= NCPU:
                 time.sleep(0.005)
